@@ -21,7 +21,7 @@ RULE = ('cases = (page_count, firmware length, schedule, initial flash). Enumera
         'for page_count 16 (two schedules each: one cycling through busy-count patterns, one seeded random); lengths '
         'size-2..size for the four flash sizes; every assignment of 0..3 busy polls to each of the 3 operations of a 1-page '
         'run and the 6 operations of a 2-page run, every assignment of 0..B to the 9 operations of a 3-page run '
-        '(B=1 quick, B=2 thorough); seeded random (boundary-biased lengths, busy counts up to 6, poll timeouts from '
+        '(B=1 quick, B=2 thorough); seeded random (boundary-biased lengths, busy counts up to 6 (and a slow-part family with 64..1200 busy polls on chosen operations; a blank-pages family whose images contain whole pages of 0xff or 0x00 on non-blank flash), poll timeouts from '
         '{0,1,2,5,10,100,255,256,65535,65536,2^24-1}, start in dfuIDLE or dfuERROR, initial flash original/erased/programmed) '
         'beyond. A case counts as non-trivial when the real host issued at least one request; distinct = distinct '
         '(page_count, length class [pages, aligned / 1 byte / 1023 bytes / other remainder, empty, full], start state, '
@@ -79,6 +79,25 @@ def fit_cases(tier):
                                     sched=F.sched_str(r.choice([0, 0, 0] + list(range(1, 16))),
                                                       [r.choice(F.TIMEOUTS) for _ in range(2)], ops),
                                     flash=r.choice(['-', '-', 'e' * pc, 'd' * (pc // 2), 'oe' * (pc // 2)]))
+    # F. images with whole pages that look like erased flash (0xff) or like padding (0x00), on flash that is not blank
+    for j in range(60 if tier == 'quick' else 400):
+        pc = r.choice([16, 32])
+        pg = r.randrange(1, 7)
+        n = pg * F.PAGE - r.choice([0, 0, 1, 5, r.randrange(F.PAGE)])
+        holes = sorted(set(r.randrange(pg) for _ in range(r.choice([1, 1, 2, 3]))))
+        yield 'blank-pages', dict(pc=pc, length=n, salt=r.randrange(251),
+                                  fill=','.join('{}:{}'.format(p, r.choice(['ff', 'ff', 'ff', '00'])) for p in holes),
+                                  sched=F.sched_str(r.choice([0, 0, 3]), [r.choice(F.TIMEOUTS)], F.random_ops(r, 3 * F.pages_of(n), 3)),
+                                  flash=r.choice(['d' * pc, 'oe' * (pc // 2), 'do' * (pc // 2), '-']))
+    # G. very slow parts: one or more operations stay busy for hundreds of polls
+    for j in range(24 if tier == 'quick' else 200):
+        pg = r.randrange(1, 4)
+        n = pg * F.PAGE - r.choice([0, 1, r.randrange(F.PAGE)])
+        counts = [r.randrange(3) for _ in range(3 * pg)]
+        for k in r.sample(range(3 * pg), r.choice([1, 1, 2, 3 * pg])):
+            counts[k] = r.choice([64, 99, 100, 101, 128, 255, 256, 257, 300, 1000, r.randrange(90, 1200)])
+        yield 'slow-part', dict(pc=16, length=n, salt=r.randrange(251),
+                                sched=F.sched_str(0, [0], F.ops_from_counts(counts, r)), flash=r.choice(['-', 'd' * 16]))
     if tier == 'thorough':
         # E. long runs: every page count boundary with heavier schedules, full-size images
         for pc in (16, 32, 64, 128):
